@@ -796,8 +796,10 @@ class AutoEvaluator(Evaluator):
         self.cells.extend(sub.cells)
         self.cell_seq.extend(sub.cell_seq)
         self.seq = sub.seq
+        if not sub.returns:
+            return F.sym("None")          # a procedure: its stores and calls are in the trace, its value is None
         if len(sub.returns) != 1:
-            return NotImplemented if not sub.returns else Unknown(f"several returns in inlined {name}")
+            return Unknown(f"several returns in inlined {name}")
         v = sub.returns[0][0]
         if v is None:
             return F.sym("None")
@@ -877,6 +879,12 @@ class AutoEvaluator(Evaluator):
         self.calls.append((name, pos, kws, node))
 
     def _assign(self, target, v, st, aug=False):
+        if isinstance(target, (ast.Tuple, ast.List)) and not isinstance(v, tuple) and not is_unknown(v) and v is not None \
+                and not any(isinstance(e, ast.Starred) for e in target.elts):
+            # unpacking an opaque value (the result of an unmodelled call): element k is idx(v, k)
+            for k, t in enumerate(target.elts):
+                self._assign(t, F.fn("idx", need(v), F.const(k)), st)
+            return
         if isinstance(target, ast.Subscript) and isinstance(target.value, ast.Name) and target.value.id in self.buffers:
             try:
                 ix = self._index_value(target.slice)
